@@ -210,7 +210,7 @@ func TestC03(t *testing.T) {
 	run := rt.Start(t, "C03")
 	defer run.Finish()
 	r := run.Rand()
-	ncfg := run.N(120, 6000)
+	ncfg := run.N(480, 12000)
 	for c := 0; c < ncfg; c++ {
 		cr := r.Fork()
 		gs := &gateSet{}
@@ -234,8 +234,8 @@ func TestC03(t *testing.T) {
 		N := pa.obs.Trace.Len()
 		// cancel points: before the call, never, and every hook hit (quick: a seeded sample of 6)
 		points := []int{-1, 0}
-		if run.Quick() && N > 6 {
-			for _, i := range cr.Perm(N)[:6] {
+		if run.Quick() && N > 10 {
+			for _, i := range cr.Perm(N)[:10] {
 				points = append(points, i+1)
 			}
 		} else {
